@@ -16,7 +16,7 @@ MIRROOT = os.path.join(WORK, 'mir')
 # crate -> package name for cargo -p
 CRATES = ['ironplc-dsl', 'ironplc-parser', 'ironplc-analyzer', 'ironplc-plc2plc', 'ironplcc', 'ironplc-problems']
 DEP_CRATES = ['logos', 'peg-runtime']      # dependency bodies that are interpreted rather than modelled
-EXPANDED_DEPS = ['lsp-server']             # ADT layouts of third-party types kernels touch
+EXPANDED_DEPS = ['lsp-server', 'lsp-types']             # ADT layouts of third-party types kernels touch
 
 
 def source_hash():
